@@ -16,7 +16,7 @@ func ZZ_C11_expander_xmd_leaves_the_dst_backing_array_alone() {
 	buf := make([]byte, 8)
 	zzFill("buf", buf)
 	before := append([]byte{}, buf...)
-	l := zzPick("dstlen", 0, 1, 4)
+	l := zzPick("dstlen", 0, 1, 4, zzT(4, 7), zzT(4, 8))
 	msg := make([]byte, 2)
 	zzFill("msg", msg)
 	_, _ = zzExpandXMD(NewExpanderMD(crypto.SHA256, buf[:l]), msg, 33)
